@@ -445,7 +445,7 @@ const PostSrc = "debugger; " + postExpr
 
 // TemplatePostSrc additionally observes the template's user state, which no
 // copy may have changed.
-const TemplatePostSrc = `debugger; [T.arr.join(), T.counter, T.seen, T.re.lastIndex, T.d.getTime(), T.err.message, T.obj.n.deep[0], "gone" in T.obj, T.args[0], T.cat("t"), T.next(), "bridge", gslice.length, typeof Array.prototype.leak, gmk() instanceof Array, "/bridge", T.calls, T.where, T.gsv, T.proto.pc, T.rd(), T.ev(), T.cth(), T.wth()].join("|") + "#" + ` + postExpr
+const TemplatePostSrc = `debugger; [T.arr.join(), T.counter, T.seen, T.re.lastIndex, T.d.getTime(), T.err.message, T.obj.n.deep[0], "gone" in T.obj, T.args[0], T.cat("t"), T.next(), T.audit.join(), "bridge", gslice.length, typeof Array.prototype.leak, gmk() instanceof Array, "/bridge", T.calls, T.where, T.gsv, T.proto.pc, T.rd(), T.ev(), T.cth(), T.wth()].join("|") + "#" + ` + postExpr
 
 func runLine(vm *otto.Otto, what string, src interface{}) string {
 	res := ox.Run(vm, src)
